@@ -431,7 +431,17 @@ Hang ==
   /\ IsEv("Hang")
   /\ Report("VIOL", [h |-> Rec[l].h, k |-> Rec[l].k, ev |-> "Hang"],
             {<<"C14", "build_did_not_return">>, <<"C01", "build_did_not_return">>, <<"C20", "build_did_not_return">>,
-             <<"C10", "build_did_not_return">>})
+             <<"C10", "build_did_not_return">>, <<"*", "operation_did_not_return">>})
+  /\ l' = l + 1
+  /\ UNCHANGED <<cur, committed, caps, ccaps, mapfull>>
+
+\* the process running the code under test was killed by a signal raised from inside it (stack overflow,
+\* segmentation fault, abort) during operation k of this history; the harness ran the other histories again
+\* and put this event in place of the history.  "*" = counts for whichever property's driver observed it.
+Crash ==
+  /\ IsEv("Crash")
+  /\ Report("VIOL", [h |-> Rec[l].h, k |-> Rec[l].k, ev |-> "Crash"],
+            {<<"*", "process_killed_by_signal_" \o ToString(Rec[l].sig) \o "_during_" \o Rec[l].op>>})
   /\ l' = l + 1
   /\ UNCHANGED <<cur, committed, caps, ccaps, mapfull>>
 
@@ -442,7 +452,7 @@ TraceInit ==
 TraceNext ==
   \/ Reset
   \/ AddLike("Add") \/ AddLike("Append")
-  \/ Del \/ AddMany \/ DelMany \/ Clear \/ ChangeMetric \/ Build \/ SearchEv \/ Commit \/ Abort \/ Hang \/ Load
+  \/ Del \/ AddMany \/ DelMany \/ Clear \/ ChangeMetric \/ Build \/ SearchEv \/ Commit \/ Abort \/ Hang \/ Crash \/ Load
 
 TraceSpec == TraceInit /\ [][TraceNext]_tvars
 
